@@ -10,7 +10,7 @@
    A panicking operation (index out of range) gives result L [I (-999)] and leaves the collection unchanged. *)
 From Coq Require Import List ZArith Bool.
 Import ListNotations.
-Require Import Sx Tables TokModel ExprParser RunC02 Collections Mustache RunC10.
+Require Import Sx Tables TokModel ExprParser RunC02 Collections MustacheVars Mustache RunC10.
 Open Scope Z_scope.
 
 Definition enc_entry (e : entry) : sx := L [estr (fst e); I (snd e)].
@@ -60,10 +60,10 @@ Definition model_C18 (input : sx) : sx :=
       | L [I 0; _; L names] =>
           let lower := lookup_lower (gl (nth_sx 3 t)) in
           let existing := map gstr (gl (nth_sx 2 input)) in
-          (* MustacheTemplate.CreateVariables: a name becomes a key unless some existing key matches it ignoring case;
+          (* MustacheTemplate.CreateVariables (MustacheVars.mcreate) on the map with the existing keys;
              reported: the names that are keys of the map afterwards *)
-          let is_key (n : sx) := existsb (fun k => Mustache.str_eqb k (gstr n)) existing
-                                 || negb (existsb (fun k => Mustache.str_eqb (lower k) (lower (gstr n))) existing) in
+          let m := mcreate lower (map (fun k => (k, [])) existing) (map gstr names) in
+          let is_key (n : sx) := existsb (fun e => Mustache.str_eqb (fst e) (gstr n)) m in
           L [I 0; L names; L (filter is_key names)]
       | r => match r with L (I 0 :: _) => L [I 0; L []; L []] | _ => r end
       end
